@@ -22,6 +22,11 @@ ROOT = os.path.dirname(os.path.dirname(os.path.abspath(__file__)))
 
 # harnesses per property: template, harness fn, stated bound, what the real text is checked against
 HARNESSES = {
+    "C13": [{"template": "c13_batching.krs", "harness": "c13_try_batching", "unwind": 6,
+             "functions": ["raft::RaftCore::try_batching", "util::is_continuous_ents"],
+             "bound": "an outbox of 2 messages (any type, receiver 1 or 2, anchored contiguous entries, 0..=2 each) and 0..=2 new contiguous entries starting at any index",
+             "claim": "after try_batching every MsgAppend in the outbox is still a contiguous run of entries anchored at its own index (entries[k].index == msg.index + 1 + k)",
+             "obligation": "C13.kext.try_batching.anchored_contiguous"}],
     "C09": [{"template": "c09_scan.krs", "harness": "c09_has_unapplied_conf_changes", "unwind": 5,
              "functions": ["raft_log::RaftLog::scan", "raft::Raft::has_unapplied_conf_changes"],
              "bound": "logs of at most 3 entries: every assignment of entry types, every lo <= hi <= 3, every page split of the scan",
